@@ -28,6 +28,9 @@ def G.dropNodes (g : G) (ns : List Nat) : G :=
   { nodes := g.nodes.filter (fun n => !(ns.contains n)),
     edges := g.edges.filter (fun e => !(ns.contains e.start) && !(ns.contains e.stop)) }
 
+/-- the graph a projection with deleted-node set `dn` and deleted-edge set `de` must present -/
+def G.project (g : G) (dn de : List Nat) : G := (g.dropEdges de).dropNodes dn
+
 def outOf (v : Nat) (e : Edge) : Option Nat := if e.start = v then some e.stop else none
 def inOf (v : Nat) (e : Edge) : Option Nat := if e.stop = v then some e.start else none
 
